@@ -617,6 +617,7 @@ impl Ctx {
                         let mut runner = TestRunner::new_with_rng(config, rng);
                         let stats = std::cell::RefCell::new(Stats::default());
                         let failed = std::cell::Cell::new(false);
+                        let last_fail = std::cell::RefCell::new(None::<String>);
                         let strat = strategy();
                         let res = runner.run(&strat, |case| match self.judge(check, &case) {
                             Ok(Some(obs)) => {
@@ -633,6 +634,7 @@ impl Ctx {
                             }
                             Err(f) => {
                                 failed.set(true);
+                                *last_fail.borrow_mut() = Some(format!("{} ({})", f.msg, f.sig));
                                 Err(TestCaseError::fail(f.msg))
                             }
                         });
@@ -645,7 +647,7 @@ impl Ctx {
                                     _ => Fail::new("unstable", "shrunk case passed when re-run (non-deterministic case)"),
                                 };
                                 if fail.sig == "unstable" {
-                                    self.inconclusive(format!("part {}: failure did not reproduce on re-run of the shrunk case {:?}", part.name, case));
+                                    self.inconclusive(format!("part {}: failure did not reproduce on re-run of the shrunk case {:?}; last failure seen while shrinking: {:?}", part.name, case, last_fail.borrow()));
                                 } else {
                                     self.report_violation(part.name, &case, &fail, &format!("proptest shard {shard}"));
                                 }
